@@ -195,7 +195,7 @@ def main():
                            "Euler trajectories that become non-finite are skipped and counted"])
     run.require("trajectories_euler", "trajectories_tauleap", "trajectories_gillespie", "nontrivial_law_checks")
     thorough = tier() == "thorough"
-    n_total = 6000 if thorough else 1600
+    n_total = 15000 if thorough else 1600
     cases = [{"seed": seed(), "idx": i, "long": (i % 10 == 0)} for i in range(n_total)]
     res = pmap("vf.checks.c02:run_case", cases, cpu_budget=40)
     for c, r_ in zip(cases, res):
